@@ -135,8 +135,10 @@ func hxs(ws []string) string {
 
 // ---------- pattern features (for the measured distribution only) ----------
 
-func c13Features(res *Result, p string, status byte) {
-	if status == 'E' {
+// (driven by the spec's verdict, not by the implementation's: the coverage
+// floors measure the generators, a mutated implementation must not move them)
+func c13Features(res *Result, p string, malformed bool) {
+	if malformed {
 		res.Count("patterns_rejected", 1)
 		return
 	}
@@ -220,7 +222,7 @@ func c13CheckPatterns(ctx *Ctx, res *Result, cases []c13Case, kind string) {
 			return
 		}
 		mstatus, malformed, tricky, mbits, sbits := f[0][0], f[1] == "1", f[2] == "1", f[3], f[4]
-		c13Features(res, c.p, status[i])
+		c13Features(res, c.p, malformed)
 		res.Evaluations++
 		// (1) Compile: error iff malformed
 		if (status[i] == 'E') != malformed || status[i] == 'P' {
@@ -249,10 +251,11 @@ func c13CheckPatterns(ctx *Ctx, res *Result, cases []c13Case, kind string) {
 			return
 		}
 		nt := c13Nontrivial(c.p)
+		nTrue := 0
 		for j, w := range ws {
 			ib := bits[i][j]
-			if ib == '1' {
-				res.Count("matches_true", 1)
+			if sbits[j] == '1' {
+				nTrue++
 			}
 			if ib != sbits[j] {
 				key := c13KeyMatch
@@ -276,6 +279,7 @@ func c13CheckPatterns(ctx *Ctx, res *Result, cases []c13Case, kind string) {
 				})
 			}
 		}
+		res.Count("matches_true", nTrue)
 		res.Evaluations += len(ws)
 		res.TracesValidated += len(ws)
 		if nt {
@@ -345,6 +349,11 @@ func c13CheckPairs(ctx *Ctx, res *Result, pairs []c13Pair, kind string) {
 		mstatus, mcan, mbits, sbits := f[0][0], f[1][0], f[3], f[4]
 		tricky := len(f) > 5 && f[5] == "1"
 		res.Evaluations++
+		if mstatus == 'K' && mcan == '1' {
+			res.Count("canmatch_true", 1)
+		} else if mstatus == 'K' {
+			res.Count("canmatch_false", 1)
+		}
 		if status[i] != mstatus {
 			res.AddViolation(Violation{
 				Key:        "C13/correspondence/intersect-status-" + kind,
@@ -393,11 +402,6 @@ func c13CheckPairs(ctx *Ctx, res *Result, pairs []c13Pair, kind string) {
 			}
 		}
 		// CanMatch against the spec: some word is matched by both
-		if can[i] == '1' {
-			res.Count("canmatch_true", 1)
-		} else {
-			res.Count("canmatch_false", 1)
-		}
 		ckey := c13KeyCanMatch
 		if tricky {
 			ckey = c13KeyTricky
@@ -450,7 +454,7 @@ func c13CheckNumber(ctx *Ctx, res *Result, reqs []string, words [][]string, kind
 		}
 		ibits := c13Bits(num, ws)
 		for j, w := range ws {
-			if ibits[j] == '1' {
+			if f[1][j] == '1' {
 				res.Count("number_true", 1)
 			}
 			if ibits[j] != f[1][j] {
@@ -514,7 +518,7 @@ func c13CheckMMN(ctx *Ctx, res *Result, pats []string, kind string) {
 		if impl[i].panicked == "" {
 			got = map[bool]string{true: "1", false: "0"}[impl[i].may] + " " + map[bool]string{true: "1", false: "0"}[impl[i].isErr]
 		}
-		switch got {
+		switch ans[i] {
 		case "1 0":
 			res.Count("mmn_true", 1)
 		case "0 0":
